@@ -82,6 +82,14 @@ func WorkDir(prop string) string {
 	return d
 }
 
+// RemoveWorkDirs removes this process's scratch directories under .work (those WorkDir made).
+func RemoveWorkDirs() {
+	ds, _ := filepath.Glob(filepath.Join(VerifDir(), ".work", fmt.Sprintf("*-%d", os.Getpid())))
+	for _, d := range ds {
+		_ = os.RemoveAll(d)
+	}
+}
+
 func Seed() int64 {
 	if s := os.Getenv("VERIF_SEED"); s != "" {
 		if v, err := strconv.ParseInt(s, 10, 64); err == nil {
